@@ -257,6 +257,7 @@ pub fn c05(ctx: &mut Ctx) -> (u64, String) {
     ctx.part("fault-sequences:any frame then a valid frame on one decoder (bit-serial)", json!({"first_frames": 2048, "second_frames": 256, "pairs": pairs}));
     // (5) and after clear() from every partial prefix every frame is judged by the same rule
     report_clear_sweep(ctx);
+    ps2_default_check(ctx);
     ctx.sample_run("ps2", &["word:0402", "word:0403", "word:0002", "word:0602", "word:07FE"]);
     ctx.sample_run("kb:echo-0:set2:Ignore", &["word:0402", "word:0403", "word:05C0", "word:0438"]);
     ctx.sample(json!({"word": "0x402", "bits": "start=0 data=0x01 parity=0 stop=1", "reference": "Ok(0x01)"}));
@@ -538,6 +539,45 @@ pub fn pair_seconds(all: bool) -> Vec<u16> {
     v
 }
 
+/// A decoder obtained through `Default::default()` must behave exactly like `new()`: identical by identity, or else
+/// every frame (and a valid frame after it) is answered identically bit by bit.
+pub fn ps2_default_check(ctx: &mut Ctx) {
+    let d0 = Ps2Decoder::default();
+    if d0 == Ps2Decoder::new() {
+        ctx.part("constructors:ps2-default", json!({"equal_to_new_by_identity": true}));
+        return;
+    }
+    let mut n = 0u64;
+    for w in 0..2048u16 {
+        let (mut a, mut b) = (d0.clone(), Ps2Decoder::new());
+        let mut bits: Vec<bool> = (0..11).map(|i| (w >> i) & 1 != 0).collect();
+        bits.extend((0..11).map(|i| (encode(0x1C) >> i) & 1 != 0));
+        for (i, bit) in bits.iter().enumerate() {
+            let ra = catch_unwind(AssertUnwindSafe(|| a.add_bit(*bit)));
+            let rb = catch_unwind(AssertUnwindSafe(|| b.add_bit(*bit)));
+            n += 1;
+            let f = |r: &std::thread::Result<Result<Option<u8>, Error>>| match r {
+                Ok(x) => fmt_optbyte(x),
+                Err(_) => "PANIC".to_string(),
+            };
+            if f(&ra) != f(&rb) {
+                let ops: Vec<Op> = bits[..=i].iter().map(|x| Op::Bit(*x)).collect();
+                ctx.violation(
+                    &format!("ps2/default-differs-from-new/frame:0x{:03X}", w),
+                    &format!("a Ps2Decoder obtained through Default::default() answers bit {} of the stream (frame 0x{:03X} then the frame of 0x1C) with {}; one built with new() answers {}", i + 1, w, f(&ra), f(&rb)),
+                    Replay { parts: vec![("ps2-default".into(), ops.clone()), ("ps2".into(), ops)], expected: format!("as new(): {}", f(&rb)), observed_last: None },
+                );
+                break;
+            }
+            if ra.is_err() {
+                break;
+            }
+        }
+    }
+    ctx.evaluations += n;
+    ctx.part("constructors:ps2-default", json!({"equal_to_new_by_identity": false, "bit_positions_compared": n}));
+}
+
 // ---- C06 --------------------------------------------------------------------------------------
 
 #[derive(Clone, Debug, PartialEq)]
@@ -729,6 +769,7 @@ pub fn c06(ctx: &mut Ctx) -> (u64, String) {
 
     // (C) hook-free: clear() from every partial prefix, then every one of the 2048 frames
     report_clear_sweep(ctx);
+    ps2_default_check(ctx);
 
     // (D) pumped frames: each of the 2048 frames 300 times on one decoder, without and with partial-frame+clear between
     for with_clear in [false, true] {
